@@ -594,25 +594,58 @@ func storeDomain(lines []string) []string {
 			var mu sync.Mutex
 			errs := 0
 			acked := map[int]string{}
-			for i := 0; i < g; i++ {
-				wg.Add(1)
-				go func(i int) {
-					defer wg.Done()
-					for k := 0; k < n; k++ {
-						rec := 100000 + i*1000 + k
-						off, err := sc.cur.st.Append(ctx, mkEvent(rec, sc.cur.padded))
-						mu.Lock()
-						if err != nil {
-							errs++
-						} else {
-							sc.cur.appOffs = append(sc.cur.appOffs, string(off))
-							acked[rec] = string(off)
-						}
-						mu.Unlock()
-					}
-				}(i)
+			// in bursts of three appends per goroutine; after every burst a reader that resumes from the offset it was
+			// given last must be handed exactly the events acknowledged in that burst
+			resume, early := eb.OffsetOldest, ""
+			if pre, next, err := sc.cur.st.Read(ctx, eb.OffsetOldest, 0); err == nil && len(pre) > 0 {
+				resume = next
 			}
-			wg.Wait()
+			for base := 0; base < n; base += 3 {
+				ackedBurst := 0
+				for i := 0; i < g; i++ {
+					wg.Add(1)
+					go func(i int) {
+						defer wg.Done()
+						for k := base; k < base+3 && k < n; k++ {
+							rec := 100000 + i*1000 + k
+							off, err := sc.cur.st.Append(ctx, mkEvent(rec, sc.cur.padded))
+							mu.Lock()
+							if err != nil {
+								errs++
+							} else {
+								sc.cur.appOffs = append(sc.cur.appOffs, string(off))
+								acked[rec] = string(off)
+								ackedBurst++
+							}
+							mu.Unlock()
+						}
+					}(i)
+				}
+				wg.Wait()
+				if sc.kind != "ds" && early == "" {
+					page, next, err := sc.cur.st.Read(ctx, resume, 0)
+					if err == nil && len(page) < ackedBurst {
+						early = fmt.Sprintf("!raceappend %d appends were acknowledged since offset %q, Read(%q, 0) returns %d events", ackedBurst, resume, resume, len(page))
+					}
+					if err == nil && len(page) > 0 {
+						resume = next
+					}
+					// … and resuming from any event of the burst but the newest must yield what follows it
+					for k := 0; err == nil && k+1 < len(page) && early == ""; k++ {
+						if k < len(page)-4 {
+							continue // the last few are the interesting ones (appends that finished out of order)
+						}
+						after, _, rerr := sc.cur.st.Read(ctx, page[k].Offset, 0)
+						if rerr == nil && len(after) != len(page)-1-k {
+							early = fmt.Sprintf("!raceappend Read(%q, 0) returns %d events, %d were appended after that offset", page[k].Offset, len(after), len(page)-1-k)
+						}
+					}
+				}
+			}
+			if early != "" {
+				out = append(out, early)
+				continue
+			}
 			if errs > 0 {
 				out = append(out, fmt.Sprintf("~raceappend refused=%d of %d", errs, g*n))
 			}
